@@ -169,6 +169,55 @@ def main(tier):
     # C12k: the rank argument of a per-sample Db accessor comes from a loop over ALL the samples (c05_skip.rank_loop_rule)
     import c05_skip
     c05_skip.rank_loop_rule(prog, chk, "C12k", ("src/Variogram/",), 20)
+    # C12c: the parameters of a calculation survive a copy: copy constructor and operator= of the variogram classes agree (copyrule)
+    import copyrule
+    ncp = copyrule.copy_agreement(pprog, chk, "C12c", classes=[c for c in pprog.classes if c in ("DirParam", "VarioParam", "Vario", "AVario")])
+    chk.floor("C12c", ncp, 10)
+    # C12v: every value of a variable read for a pair (_getIVAR) is tested for definedness before it enters the accumulated quantity
+    nv = 0
+    for f in sorted(prog.funcs, key=lambda x: (x.file, x.line)):
+        if f.cfg is None or not f.file.endswith("src/Variogram/AVario.cpp"):
+            continue
+        vals = {}
+        for x in f.walk():
+            if x["k"] == "VarDecl" and x.get("c") and x["c"][0] is not None and any(
+                    y["k"] == "MCall" and (y.get("callee") or "").endswith("::_getIVAR") for y in walk(x["c"][0])):
+                vals[x["d"]] = x
+        if not vals:
+            continue
+        gc = gates.GateCtx(f)
+        for d, decl in sorted(vals.items(), key=lambda kv: kv[1]["l"]):
+            uses = []
+            for x in f.walk():
+                if x["k"] in ("BinOp", "Assign") and x.get("op") in ("+", "-", "*", "/", "+=", "-=", "*="):
+                    if any(y["k"] == "DeclRefExpr" and y.get("d") == d for y in walk(x)) and not any(
+                            a["k"] == "Call" and (a.get("callee") or "") in ("FFFF", "IFFFF") for a in f.ancestors(x)):
+                        uses.append(x)
+            if not uses:
+                continue
+
+            def m(core, d=d):
+                if core["k"] == "Call" and (core.get("callee") or "") in ("FFFF", "IFFFF") and call_args(core) and \
+                        call_args(core)[0] is not None and call_args(core)[0].get("d") == d:
+                    return False          # the gate holds on the edge where FFFF(value) is false
+                return None
+            passes = gc.pass_edges(m)
+            nv += 1
+            chk.analysed(f)
+            bad = None
+            for u in uses:
+                if gc.g.pos_of(u) is None:
+                    continue
+                w = gc.g.search(gc.g.after(decl) if gc.g.pos_of(decl) else gc.g.entry_pos(), is_target=lambda y, u=u: y["i"] == u["i"],
+                                edge_ok=lambda blk, k, s_: (blk["b"], k) not in passes)
+                if w is not None:
+                    bad = (u, w)
+                    break
+            chk.ob("C12v", "%s: the value `%s` is tested for definedness before it is used" % (f.name, decl["n"]), f.loc(decl), bad is None,
+                   detail=None if bad is None else "`%s` enters `%s` on a path where FFFF(%s) was not tested: an undefined value (1.234e30) is accumulated as if it "
+                   "were data" % (decl["n"], show(bad[0])[:40], decl["n"]), key="C12v|%s|%s" % (f.name, decl["n"]),
+                   path=None if bad is None else gc.g.describe(bad[1]))
+    chk.floor("C12v", nv, 20)
     # C12u: a pair whose value is undefined for one variable is skipped for that variable only (shared rule with C05d)
     import c05_skip
     c05_skip.rule_d(prog, chk, 2, rule="C12u", only_files=("src/Variogram/",))
